@@ -947,6 +947,16 @@ func (e *Engine) externCall(fr *frame, x *ssa.Call, key string, fn *ssa.Function
 						st.assume(c.Ne(iv.Typ, c.Const(TypW, 0)))
 					}
 				}
+				// fmt.Sprintf with a constant format that starts with literal text yields a non-empty string
+				if key == "fmt.Sprintf" && len(args) > 0 {
+					if fs, isS := args[0].(Str); isS && fs.P.R.IsConst() {
+						if lit, ok := e.strByRegion[uint32(fs.P.R.Val)]; ok && len(lit) > 0 && lit[0] != '%' {
+							if rs, isR := res.(Str); isR {
+								st.assume(c.Slt(c.Const(64, 0), rs.Len))
+							}
+						}
+					}
+				}
 			}
 		}
 		k(st, res)
